@@ -56,7 +56,7 @@ var impWants = []impWant{
 	{dir: "formats/fastq", pkg: "fastq", funcs: []string{"Fastq.Write", "Fastq.MarshalText"}, join: true},
 	{dir: "formats/fastq", pkg: "fastqrd", funcs: []string{"reader.read", "reader.iter", "Reader"}, errZ: true, join: true},
 	{dir: "formats/sam", pkg: "sam", funcs: []string{"tagToText", "tagsToText", "SAM.Write", "SAM.MarshalText", "splitTag", "parseTags", "parseInts", "parseLine"}, join: true, floatAs: "F"},
-	{dir: "formats/smtext", pkg: "smtext", funcs: []string{"extractSingleChar"}},
+	{dir: "formats/smtext", pkg: "smtext", funcs: []string{"extractSingleChar", "ReadNCBI"}, errZ: true, floatAs: "F"},
 	{dir: "formats/bed", pkg: "bed", funcs: []string{"BED.Write", "BED.MarshalText", "parseLine", "reader.read", "Reader"}, join: true, errZ: true},
 	{dir: "formats/newick", pkg: "newick", funcs: []string{"quoted", "nameFromText", "nameToText", "Node.traverse", "Node.newick", "Node.MarshalText", "Node.Write"}, floatAs: "F"},
 	{dir: "formats/newick", pkg: "newickrd", funcs: []string{"reader.nextToken"}, errZ: true, floatAs: "F"},
@@ -994,6 +994,14 @@ func (t *impTr) call(e *ast.CallExpr, pre *[]opener) string {
 			}
 		}
 	}
+	if f, ok := obj.(*types.Func); ok && f.Name() == "FindAllString" {
+		if sig := f.Type().(*types.Signature); sig.Recv() != nil && strings.HasSuffix(sig.Recv().Type().String(), "regexp.Regexp") {
+			if tv, ok := t.info.Types[e.Args[1]]; !ok || tv.Value == nil || tv.Value.ExactString() != "-1" {
+				t.fail(e, "FindAllString with a limit")
+			}
+			return "(go_fields " + t.ex(e.Args[0], pre) + ")"
+		}
+	}
 	if obj != nil && obj.Pkg() != nil {
 		switch obj.Pkg().Path() + "." + obj.Name() {
 		case "slices.Clone":
@@ -1333,6 +1341,13 @@ func (t *impTr) store(lhs ast.Expr, v string, pre *[]opener) {
 			t.store(l.X, fmt.Sprintf("(go_map_set %s %s %s)", k, v, t.ex(l.X, pre)), pre)
 			return
 		}
+		if mt, ok := xt.Underlying().(*types.Map); ok {
+			if arr, ok := mt.Key().Underlying().(*types.Array); ok && arr.Len() == 2 {
+				k := t.ex(l.Index, pre)
+				t.store(l.X, fmt.Sprintf("(go_map_set2 %s %s %s)", k, v, t.ex(l.X, pre)), pre)
+				return
+			}
+		}
 		switch xt.Underlying().(type) {
 		case *types.Slice, *types.Array:
 			x := t.ex(l.X, pre)
@@ -1419,6 +1434,23 @@ func (t *impTr) block(list []ast.Stmt, k string, lc *loopCtx) string {
 		t.store(s.X, fmt.Sprintf("(%s %s %s)", f, x, one), &pre)
 		return wrapOpeners(pre, rest())
 	case *ast.AssignStmt:
+		if len(s.Rhs) == 1 {
+			if call, ok := s.Rhs[0].(*ast.CallExpr); ok {
+				if o := t.calleeObj(call.Fun); o != nil && o.Pkg() != nil {
+					switch o.Pkg().Path() + "." + o.Name() {
+					case "bufio.NewScanner", "bufio.NewReader":
+						if id, ok := call.Args[0].(*ast.Ident); ok && t.ioReader != nil && t.info.Uses[id] == t.ioReader {
+							return rest() // the wrapper around the stream: its methods act on rd__
+						}
+					case "regexp.MustCompile":
+						if tv, ok := t.info.Types[call.Args[0]]; ok && tv.Value != nil && constant.StringVal(tv.Value) == `\S+` {
+							return rest() // only FindAllString(_, -1) is supported on it: the non-space fields
+						}
+						t.fail(s, "a regular expression other than \\S+")
+					}
+				}
+			}
+		}
 		t.assign(s, &pre)
 		return wrapOpeners(pre, rest())
 	case *ast.ExprStmt:
@@ -1792,7 +1824,11 @@ func (t *impTr) assign(s *ast.AssignStmt, pre *[]opener) {
 					t.fail(s, "ParseFloat in a package whose floats are integers")
 				}
 				t.oracle = true
-				lib = "go_parse_float o " + t.ex(call.Args[0], pre)
+				lib = "go_parse_float o "
+				if t.errZ {
+					lib = "go_parse_float_z o "
+				}
+				lib += t.ex(call.Args[0], pre)
 			case "encoding/hex.DecodeString":
 				lib = "go_hex_decode " + t.ex(call.Args[0], pre)
 			case "strconv.ParseUint":
@@ -2075,6 +2111,18 @@ func (t *impTr) forStmt(s *ast.ForStmt, rest func() string) string {
 			}
 		}
 	}
+	// a condition that changes the stream (for sc.Scan() { ... }):  for { if !cond { break }; ... }
+	if s.Cond != nil && s.Init == nil && s.Post == nil {
+		_, cf := t.assigned(s.Cond)
+		if cf&2 != 0 {
+			brk := &ast.IfStmt{Cond: &ast.UnaryExpr{Op: token.NOT, X: s.Cond}, Body: &ast.BlockStmt{List: []ast.Stmt{&ast.BranchStmt{Tok: token.BREAK}}}}
+			cp := *s
+			cp.Cond = nil
+			cp.Body = &ast.BlockStmt{Lbrace: s.Body.Lbrace, Rbrace: s.Body.Rbrace, List: append([]ast.Stmt{brk}, s.Body.List...)}
+			t.info.Types[brk.Cond] = types.TypeAndValue{Type: types.Typ[types.Bool]}
+			return t.forStmt(&cp, rest)
+		}
+	}
 	// general: init; go_while fuel cond (body; post)
 	t.fuel = true
 	var initObjs []types.Object
@@ -2296,6 +2344,9 @@ func (t *impTr) function(fd *ast.FuncDecl, coqName string) *impFn {
 			}
 			if fn, ok := t.fns[o]; ok && fn.stream {
 				t.calleeSty = fn.sty
+			}
+			if o != nil && o.Pkg() != nil && o.Pkg().Path() == "bufio" && o.Name() == "NewScanner" {
+				t.calleeSty = "go_scanner"
 			}
 		}
 		return true
